@@ -143,20 +143,34 @@ Definition c5_chk_start (s : c5_ostep) : bool :=
 Definition c5_chk_trigev (s : c5_ostep) : bool :=
   forallb (fun d => c5_mem (d_id d) (c5_trig_ids (c5_outs s))) (c5_newly (c5_pre s) (c5_post s)).
 
-(* chained triggers: whatever became triggered in this step has triggered the downtimes chained to it that
-   were untriggered and inside their own window - with the same trigger time when the chained one is flexible *)
+(* chained triggers, every level: whatever became triggered in this step has triggered each downtime chained to it
+   that was untriggered and inside its own window - and that one, being newly triggered itself, its own chained
+   downtimes, and so on.  Outside the start timer all of them carry the same trigger time (one TriggerDowntime(t) call
+   per root; C05_chain proves the same-instant part for every single call, also inside the start timer, where the
+   roots have different instants).  dt_add only triggers the new downtime, to which nothing is chained yet. *)
 Definition c5_chk_chain (s : c5_ostep) : bool :=
-  forallb (fun d' =>
-             forallb (fun cid =>
-                        match find_dt cid (c5_pre s) with
-                        | Some c =>
-                            if (d_trigger c =? 0) && c5_inwin (c5_now s) c then
-                              if d_fixed c then negb (c5_trig_of cid (c5_post s) =? 0)
-                              else c5_trig_of cid (c5_post s) =? d_trigger d'
-                            else true
-                        | None => true
-                        end) (d_triggers d'))
-          (c5_newly (c5_pre s) (c5_post s)).
+  match c5_op s with
+  | OpDtAdd _ _ _ _ _ _ _ _ => true
+  | _ =>
+    forallb (fun d' =>
+               match find_dt (d_id d') (c5_pre s) with
+               | Some x =>
+                   forallb (fun cid =>
+                              match find_dt cid (c5_pre s) with
+                              | Some c =>
+                                  if (d_trigger c =? 0) && c5_inwin (c5_now s) c then
+                                    negb (c5_trig_of cid (c5_post s) =? 0)
+                                    && match c5_op s with
+                                       | OpDtStartTimer => true
+                                       | _ => c5_trig_of cid (c5_post s) =? d_trigger d'
+                                       end
+                                  else true
+                              | None => true
+                              end) (d_triggers x)
+               | None => true
+               end)
+            (c5_newly (c5_pre s) (c5_post s))
+  end.
 
 (* downtime_depth = number of downtimes in effect *)
 Definition c5_chk_depth (s : c5_ostep) : bool :=
@@ -188,7 +202,7 @@ Definition c5_wf_step (prev_now : Z) (s : c5_ostep) : bool :=
   (prev_now <=? c5_now s) && (0 <? c5_now s) && c5_in_scope (c5_op s) &&
   match c5_op s with
   | OpResult r => (0 <? r_end r) && (r_end r <=? c5_now s)
-  | OpDtAdd id _ _ _ _ _ _ _ => negb (c5_has id (c5_pre s)) && negb (id =? 0)
+  | OpDtAdd id _ _ _ _ trig_by _ _ => negb (c5_has id (c5_pre s)) && (negb (id =? 0) && negb (trig_by =? id))
   | _ => true
   end.
 
